@@ -54,7 +54,7 @@ def main(claimed, na_reasons):
         'engines': [{'name': 'lean4-model+extract+corr', 'path': 'lean/ tools/', 'serves_properties': sorted(claimed),
                      'kind_free_text': 'hand-written Lean 4 model + theorems; translator regenerating facts from the source; differential correspondence harness'}],
         'checks': checks,
-        'notes': 'See DESIGN.md. fix: commits in /repo repair 24 genuine defects (D1-D12, D14, D15, D17-D26; seven of them found by the checks themselves, DESIGN.md 13.3) (known_findings.json, status=fixed); status=known entries are printed as KNOWN-FINDING.',
+        'notes': 'See DESIGN.md. fix: commits in /repo repair 27 genuine defects (D1-D12, D14, D15, D17-D29; ten of them found during the build, DESIGN.md 13.3) (known_findings.json, status=fixed); status=known entries are printed as KNOWN-FINDING.',
         'not_applicable': [{'property_id': p, 'reason': r} for p, r in sorted(na_reasons.items())],
     }
     json.dump(m, open(os.path.join(VERIF, 'MANIFEST.json'), 'w'), indent=1)
